@@ -78,7 +78,7 @@ class TLCResult:
 _re_states = re.compile(r"(\d+) states generated, (\d+) distinct states found")
 _re_depth = re.compile(r"depth of the complete state graph search is (\d+)")
 _re_inv = re.compile(r"Invariant (\S+) is violated")
-_re_prop = re.compile(r"(Temporal properties were violated|Action property (\S+) is violated|property (\S+) is violated)")
+_re_prop = re.compile(r"(Temporal properties were violated|Action property (\S+) is violated|property (\S+) (?:is|was) violated)")
 _re_cov = re.compile(r"^<(\w+) line \d+, col \d+ to line \d+, col \d+ of module (\w+)>: (\d+):(\d+)")
 
 
